@@ -53,6 +53,7 @@ def c10(rep, tier):
         r_utf8sink.run(p, rep)
         r_utf8sink.run_unsafe(p, rep)
         r_verbatim.buffered_render(p, rep)
+        r_wprop.run_sink_identity(p, rep)
         rep.analysed["config:all"] = {"bodies": len(p.fns), "crates": p.crates}
 
 
@@ -97,6 +98,8 @@ def c05(rep, tier):
     r_pair.run_for_else(p, rep)
     r_pair.run_loop_index(p, rep)
     r_pair.run_argflow(p, rep)
+    r_pair.run_range(p, rep)
+    r_pair.run_empty_ok(p, rep)
     rep.analysed["config:all"] = {"bodies": len(p.fns)}
 
 
